@@ -294,7 +294,7 @@ Section Model.
     match v with
     | VNone => Some false | VBool b => Some b | VInt z => Some (negb (Z.eqb z 0))
     | VFloat x => Some (negb (eqb x zero))
-    | VStr s => Some (negb (String.eqb s ""))
+    | VStr s => Some (match s with EmptyString => false | String _ _ => true end)
     | VList l => Some (match l with [] => false | _ => true end)
     | VDict l => Some (match l with [] => false | _ => true end)
     | VArr _ => None
@@ -370,27 +370,25 @@ Section Model.
                         | None => Err EInternal end
       end.
     (* construction_arguments: the parameters, in order; a parameter without field is skipped if it has a default and
-       switches the rest to keywords; returns (parameter, payload, positional?) *)
-    Fixpoint kept (params : list param) (fields : list (string * entry)) (positional : bool) : result (list (string * X * bool)) :=
+       switches the rest to keywords.  Returns (positional arguments, keyword arguments) *)
+    Fixpoint kept (params : list param) (fields : list (string * entry)) (positional : bool) : result (list X * list (string * X)) :=
       match params with
-      | [] => Ok []
+      | [] => Ok ([], [])
       | p :: ps =>
           match assoc (p_name p) fields with
-          | Some (_, r) => do x <- r; do rest <- kept ps fields positional; Ok ((p_name p, x, positional) :: rest)
+          | Some (_, r) =>
+              do x <- r; do rest <- kept ps fields positional;
+              if positional then Ok (x :: fst rest, snd rest) else Ok (fst rest, (p_name p, x) :: snd rest)
           | None => match p_default p with Some _ => kept ps fields false | None => Err EValue end
           end
       end.
     Definition as_constructor (cs : class_sig) (src : rsrc) (steps : list rstep) (positional : bool) (tbl : attr_tbl)
-      : result (list (string * X * bool)) :=
+      : result (list X * list (string * X)) :=
       do f0 <- match src with
                | RVars => Ok (map (fun kv => (fst kv, fst (snd kv))) tbl)
                | RDict ents => dict_entries tbl ents end;
       do f1 <- apply_steps tbl steps f0;
       kept (if cs_has_init cs then cs_params cs else []) f1 positional.
-    Definition positionals (k : list (string * X * bool)) : list X :=
-      map (fun e => snd (fst e)) (filter (fun e => snd e) k).
-    Definition keywords (k : list (string * X * bool)) : list (string * X) :=
-      map (fun e => fst e) (filter (fun e => negb (snd e)) k).
   End AsConstructor.
 
   (* Rule.text from the attribute table (values only) *)
@@ -410,7 +408,7 @@ Section Model.
     | VFloat x => Ok (repr_float a x)
     | VList l => do es <- sequence (map (repr a) l); Ok (EList es)
     | VArr l => do es <- sequence (map (repr a) l); Ok (ECall (qualify a "library" "array") [EList es] [])
-    | VDict l => do es <- sequence_kv (map (fun kv => (fst kv, repr a (snd kv))) l); Ok (EDict (sort_kv es))
+    | VDict l => do es <- sequence_kv (sort_kv (map (fun kv => (fst kv, repr a (snd kv))) l)); Ok (EDict es)   (* keys sorted, then printed *)
     | VEnum _ k => Ok (EStr k)
     | VObj cls fields =>
         let tbl := map (fun kv => (fst kv, ((snd kv, repr a (snd kv)),
@@ -423,7 +421,7 @@ Section Model.
             match cs_repr cs with
             | RConstructor src steps positional =>
                 do k <- as_constructor cs src steps positional tbl;
-                Ok (ECall (qualify a (cs_module cs) cls) (positionals k) (keywords k))
+                Ok (ECall (qualify a (cs_module cs) cls) (fst k) (snd k))
             | RRuleCreate => do t <- rule_text tbl; Ok (ECall (qualify a (cs_module cs) cls ++ ["create"]) [ERawStr t] [])
             | RLambdaStub => Ok (ECall (qualify a (cs_module cs) cls) [ELambdaStub] [])
             | RNone => Ok (EOpaque cls)
@@ -783,7 +781,7 @@ Section Model.
     | VFloat x => Ok (VFloat (norm_float x))
     | VList l => do vs <- sequence (map normalize l); Ok (VList vs)
     | VArr l => do vs <- sequence (map normalize l); np_array [VList vs] []
-    | VDict l => do vs <- sequence_kv (map (fun kv => (fst kv, normalize (snd kv))) l); Ok (VDict (sort_kv vs))
+    | VDict l => do vs <- sequence_kv (sort_kv (map (fun kv => (fst kv, normalize (snd kv))) l)); Ok (VDict vs)
     | VEnum _ k => Ok (VStr k)                  (* an enumeration member prints as the string the constructors accept *)
     | VObj cls fields =>
         let tbl := map (fun kv => (fst kv, ((snd kv, normalize (snd kv)),
@@ -796,7 +794,7 @@ Section Model.
             match cs_repr cs with
             | RConstructor src steps positional =>
                 do k <- as_constructor cs src steps positional tbl;
-                instantiate cls (positionals k) (keywords k)
+                instantiate cls (fst k) (snd k)
             | RRuleCreate => do t <- rule_text tbl; if raw_safe t then rule_create [VStr t] [] else Err ESyntax
             | RLambdaStub => instantiate cls [VOpaque "lambda a, b: ..."] []
             | RNone => Err ESyntax
